@@ -1,6 +1,6 @@
 #!/usr/bin/env python3
 """Runs every seeded change in /verif/seeded against the quick check of the property it breaks.
-usage: tools/mutant_matrix.py [--worktree DIR] [--seed N] [ids...]   (default: apply to /repo and undo, as the brief prescribes)"""
+usage: tools/mutant_matrix.py [--worktree DIR] [--harvest] [--seed N] [ids...]   (default: apply to /repo and undo, as the brief prescribes)"""
 import os, sys, json, subprocess, glob, re, time
 
 V = os.path.dirname(os.path.dirname(os.path.abspath(__file__)))
@@ -9,6 +9,10 @@ wt = None
 if args and args[0] == "--worktree":
     wt = args[1]
     args = args[2:]
+harvest = False
+if args and args[0] == "--harvest":
+    harvest = True
+    args = args[1:]
 seed = None
 if args and args[0] == "--seed":
     seed = args[1]
@@ -41,6 +45,17 @@ for mid in ids:
         try:
             d = json.load(open(m.group(1)))
             what = (d.get("failures") or [{}])[0].get("what", "") or "; ".join(d.get("no_longer_checks", []))[:300]
+            if harvest:
+                # keep the (minimised) failing scenario as a regression input: the corpus runs first in every check
+                for f in d.get("failures") or []:
+                    sc = f.get("replay_minimised") or f.get("replay")
+                    if isinstance(sc, dict) and "ops" in sc and "tree" in sc:
+                        cd = os.path.join(V, "corpus", prop)
+                        os.makedirs(cd, exist_ok=True)
+                        sc = dict(sc)
+                        sc["origin"] = f"failing input found for seeded change {mid}: {f.get('what', '')[:200]}"
+                        json.dump(sc, open(os.path.join(cd, f"seeded_{mid}.json"), "w"), indent=1, ensure_ascii=False)
+                        break
         except Exception:
             pass
     status = "missed" if p.returncode == 0 else ("caught-no-failing-input" if vio and "no-failing-input-found" in vio[0] else ("caught" if vio else f"error rc={p.returncode}"))
